@@ -71,6 +71,35 @@ fn gen_multi(sig: &LangSig, src: &mut Src) -> Vec<(String, Tm)> {
     eqs
 }
 
+/// a pattern obtained from an inserted term by replacing subterms with variables; subterms with the same operator and the
+/// same number of free names tend to get the same variable (non-linear patterns whose instances differ only in argument order
+/// or in a renamed slot - the matcher has to compare them semantically)
+pub fn abstract_term(t: &Tm, src: &mut Src, seen: &mut Vec<((String, usize), String)>, depth: usize) -> Tm {
+    let vars = ["a", "b", "c", "d"];
+    if depth > 0 && src.pick(3) == 0 {
+        let key = (t.op.clone(), t.fv().len());
+        if let Some((_, v)) = seen.iter().find(|(k, _)| *k == key) {
+            if src.pick(3) != 0 {
+                return pvar(v);
+            }
+        }
+        let v = vars[seen.len() % vars.len()].to_string();
+        seen.push((key, v.clone()));
+        return pvar(&v);
+    }
+    Tm {
+        op: t.op.clone(),
+        args: t
+            .args
+            .iter()
+            .map(|a| match a {
+                Arg::K(bs, k) => Arg::K(bs.clone(), abstract_term(k, src, seen, depth + 1)),
+                o => o.clone(),
+            })
+            .collect(),
+    }
+}
+
 fn pat_vars(p: &Tm) -> BTreeSet<String> {
     p.subterms().iter().filter(|s| is_pvar(s)).map(|s| pvar_name(s).to_string()).collect()
 }
@@ -152,7 +181,23 @@ fn strategy(lang: LangId) -> BoxedStrategy<MatchCase> {
     let sig = lang.sig();
     (mixed_strategy(cfg), proptest::collection::vec(proptest::collection::vec(any::<u16>(), 0..30), 1..5), proptest::collection::vec(proptest::collection::vec(any::<u16>(), 0..30), 0..3))
         .prop_map(move |(base, pch, mch)| {
-            let pats = pch.iter().map(|ch| gen_simple_pat(&sig, 4, &mut Src::new(ch), 0, 3)).collect();
+            let terms = base.terms();
+            let pats = pch
+                .iter()
+                .enumerate()
+                .map(|(i, ch)| {
+                    let mut src = Src::new(ch);
+                    if i % 2 == 0 && !terms.is_empty() {
+                        let t = &terms[src.pick(terms.len())];
+                        // pattern slots get their own names (shifted), as the matcher treats pattern slots as distinct from e-graph slots
+                        let p = abstract_term(t, &mut src, &mut Vec::new(), 0);
+                        if p.subterms().len() > 1 || !is_pvar(&p) {
+                            return p;
+                        }
+                    }
+                    gen_simple_pat(&sig, 4, &mut src, 0, 3)
+                })
+                .collect();
             let multi = mch.iter().map(|ch| gen_multi(&sig, &mut Src::new(ch))).collect();
             MatchCase { base, pats, multi }
         })
@@ -175,7 +220,7 @@ pub fn property(tier: Tier) -> Property {
                     c.multi.iter().map(|e| e.iter().map(|(v, t)| format!("?{} == {}", v, render_pat(t, &Naming::Alpha))).collect::<Vec<_>>().join(", ")).collect::<Vec<_>>()
                 )
             },
-            rule: "a reachable e-graph (mixed history with symmetric / redundant / self-referential unions and rewriting), 1-4 random patterns (depth <= 3, repeated variables, free and bound slots, also unmatched ones) and 0-2 random multi-patterns (1-3 equations, shared variables); every returned substitution is total, its instance looks up without inserting, multi-pattern equations hold, fingerprint unchanged; non-trivial = at least one match on an e-graph with an effective union; distinct by rendered case",
+            rule: "a reachable e-graph (mixed history with symmetric / redundant / self-referential unions and rewriting), 1-4 patterns, half of them random (depth <= 3, repeated variables, free and bound slots, also unmatched ones) and half obtained from inserted terms by replacing subterms with (often repeated) variables and 0-2 random multi-patterns (1-3 equations, shared variables); every returned substitution is total, its instance looks up without inserting, multi-pattern equations hold, fingerprint unchanged; non-trivial = at least one match on an e-graph with an effective union; distinct by rendered case",
             case_timeout_s: tier.pick(120, 600),
             exhaustive: false,
         }));
